@@ -659,7 +659,7 @@ class propagator_cpmc(propagator_unrestricted):
 
         prop_data["weights"] *= jnp.exp(self.dt * (prop_data["pop_control_ene_shift"]))
         prop_data["weights"] = jnp.where(
-            prop_data["weights"] > 100.0, 0.0, prop_data["weights"]
+            prop_data["weights"] <= 100.0, prop_data["weights"], 0.0
         )
         prop_data["pop_control_ene_shift"] = prop_data["e_estimate"] - 0.1 * jnp.array(
             jnp.log(jnp.sum(prop_data["weights"]) / self.n_walkers) / self.dt
@@ -774,7 +774,7 @@ class propagator_cpmc_slow(propagator_cpmc, propagator_unrestricted):
 
         prop_data["weights"] *= jnp.exp(self.dt * (prop_data["pop_control_ene_shift"]))
         prop_data["weights"] = jnp.where(
-            prop_data["weights"] > 100.0, 0.0, prop_data["weights"]
+            prop_data["weights"] <= 100.0, prop_data["weights"], 0.0
         )
         prop_data["pop_control_ene_shift"] = prop_data["e_estimate"] - 0.1 * jnp.array(
             jnp.log(jnp.sum(prop_data["weights"]) / self.n_walkers) / self.dt
@@ -1228,7 +1228,7 @@ class propagator_cpmc_nn(propagator_cpmc, propagator_unrestricted):
 
         prop_data["weights"] *= jnp.exp(self.dt * (prop_data["pop_control_ene_shift"]))
         prop_data["weights"] = jnp.where(
-            prop_data["weights"] > 100.0, 0.0, prop_data["weights"]
+            prop_data["weights"] <= 100.0, prop_data["weights"], 0.0
         )
         prop_data["pop_control_ene_shift"] = prop_data["e_estimate"] - 0.1 * jnp.array(
             jnp.log(jnp.sum(prop_data["weights"]) / self.n_walkers) / self.dt
@@ -1591,7 +1591,7 @@ class propagator_cpmc_nn_slow(propagator_unrestricted):
 
         prop_data["weights"] *= jnp.exp(self.dt * (prop_data["pop_control_ene_shift"]))
         prop_data["weights"] = jnp.where(
-            prop_data["weights"] > 100.0, 0.0, prop_data["weights"]
+            prop_data["weights"] <= 100.0, prop_data["weights"], 0.0
         )
         prop_data["pop_control_ene_shift"] = prop_data["e_estimate"] - 0.1 * jnp.array(
             jnp.log(jnp.sum(prop_data["weights"]) / self.n_walkers) / self.dt
@@ -1676,7 +1676,7 @@ class propagator_cpmc_continuous(propagator_unrestricted):
         )
         prop_data["overlaps"] = overlaps_new
         prop_data["weights"] = jnp.where(
-            prop_data["weights"] > 100.0, 0.0, prop_data["weights"]
+            prop_data["weights"] <= 100.0, prop_data["weights"], 0.0
         )
         # prop_data["weights"] = overlaps_new.real
         prop_data["pop_control_ene_shift"] = prop_data["e_estimate"] - 0.1 * jnp.array(
